@@ -5,6 +5,7 @@ import IrVerif.Lemmas.ScopeIdem
 import IrVerif.Lemmas.ScopeReplDeser
 import IrVerif.Lemmas.ScopeModel
 import IrVerif.Props.C17
+import IrVerif.Model.ScopeExt
 namespace IrVerif.Scope
 
 /-! ### the write log only changes tensor names -/
@@ -337,6 +338,85 @@ theorem C03_roundtrip_model (w : MWorld) (h : ReloadableM w) :
       obtain ⟨t', h1, _, h3, h4⟩ := hc t htc
       exact ⟨t', h1, h3, h4⟩⟩⟩
 
+/-! ### the decoration layer (`Model/ScopeMeta.lean`) -/
+
+/-- **C03_meta_roundtrip**: IR -> proto -> IR on the decorations (metadata_props of model / graph / node /
+    function, opset imports, doc strings and the other `_get_field` fields, model and node device
+    configurations, function attributes).  Hypothesis `wfModelDB W`: the dicts of the IR side have distinct
+    keys (a representation invariant: they are Python dicts; decidable, evaluated by the driver on every
+    generated model).  If serialization does not raise (it raises for a node device configuration without
+    configuration / a sharding spec without value at IR version >= 11), deserializing the proto gives
+    `canonModelD W` — explicitly: every metadata dict sorted by key (equal as a finite map), opset imports
+    and their order kept, a falsy doc string / name / producer field absent, model and node device
+    configurations kept from IR version 11 and dropped below, function attributes with a value first and the
+    valueless ones reduced to their name, functions under the same identifiers in the same order — and that
+    model serializes to the same proto. -/
+theorem C03_meta_roundtrip (W : ModelDS) (Q : ModelDP) (hw : wfModelDB W = true) (h : serModelD W = .ok Q) :
+    deserModelD Q = canonModelD W ∧ serModelD (deserModelD Q) = .ok Q :=
+  rtModelD W Q hw h
+
+/-- **C03_roundtrip_decorated**: `C03_roundtrip_model` and `C03_meta_roundtrip` together, for a decorated IR
+    model: serialization raises in the decorations, or the reloaded model is isomorphic to the original
+    in its core (`IsoM`) and carries the canonical form of its decorations. -/
+theorem C03_roundtrip_decorated (w : XWorld) (h : ReloadableM w.core) (hw : wfModelDB w.deco = true) :
+    (∃ e, serializeX w = .error (.deco e)) ∨
+    ∃ (w1 : XWorld) (P : XModelP) (D : XWorld) (σ : Nat → Nat),
+      serializeX w = .ok (w1, P) ∧ deserializeX P = .ok D ∧ IsoM w.core D.core σ ∧
+      D.deco = canonModelD w.deco := by
+  obtain ⟨m1, Pc, Dc, σ, h1, h2, h3⟩ := C03_roundtrip_model w.core h
+  cases hq : serModelD w.deco with
+  | error e => exact .inl ⟨e, by simp only [serializeX, h1, hq]⟩
+  | ok Qd =>
+    exact .inr ⟨⟨m1, w.deco⟩, ⟨Pc, Qd⟩, ⟨Dc, deserModelD Qd⟩, σ, by simp only [serializeX, h1, hq],
+      by simp only [deserializeX, h2], h3, (C03_meta_roundtrip w.deco Qd hw hq).1⟩
+
+/-- **C03_pure_decorated**: `C03_pure` for decorated models with functions.  The decorations and the trees
+    are returned unchanged BY CONSTRUCTION of the model (`serModelD` is a function of the decorations that
+    returns a proto; it has no effect to log) — as for the first conjuncts of `C03_pure`, this restates that
+    the model has no such effect and is not evidence about the real code; that `to_proto` leaves metadata,
+    opset imports, attributes and device configurations of the real objects alone rests on the deep-snapshot
+    oracle.  The value store is unchanged, tensors keep payload / dtype / shape. -/
+theorem C03_pure_decorated (w w1 : XWorld) (P : XModelP) (h : serializeX w = .ok (w1, P)) :
+    w1.deco = w.deco ∧ w1.core.root = w.core.root ∧ w1.core.funcs = w.core.funcs ∧
+    w1.core.st.vals = w.core.st.vals ∧
+    (∀ t, (w1.core.st.tens t).data = (w.core.st.tens t).data ∧ (w1.core.st.tens t).ty = (w.core.st.tens t).ty ∧
+      (w1.core.st.tens t).sh = (w.core.st.tens t).sh) := by
+  simp only [serializeX] at h
+  split at h
+  · simp at h
+  · rename_i m1 q hm
+    split at h
+    · simp at h
+    · simp only [Except.ok.injEq, Prod.mk.injEq] at h
+      obtain ⟨rfl, _⟩ := h
+      simp only [serializeM] at hm
+      split at hm
+      · simp at hm
+      · split at hm
+        · simp at hm
+        · rename_i ws1 _ _ ws2 _
+          simp only [Except.ok.injEq, Prod.mk.injEq] at hm
+          obtain ⟨rfl, _⟩ := hm
+          exact ⟨rfl, rfl, rfl, rfl, fun t => applyWrites_data _ w.core.st.tens t⟩
+
+/-- **C03_pure_ext**: `C03_pure` for the extended model (`Model/ScopeExt.lean`: merged value metadata,
+    quantization annotations, resolved sharding values): the extension state, the tree and the value cells are
+    returned unchanged BY CONSTRUCTION of the model (`serGraphE` is a function of them that returns the proto and
+    the log of tensor-name writes); tensors keep payload / dtype / shape.  As for `C03_pure`, that the REAL
+    `to_proto` does not touch `Value.metadata_props`, `Value.meta` or the device configurations rests on the
+    deep-snapshot oracle of `harness/c03.py`. -/
+theorem C03_pure_ext (ver : Option Int) (w w1 : WorldE) (p : GraphE) (h : serializeE ver w = .ok (w1, p)) :
+    w1.ext = w.ext ∧ w1.root = w.root ∧ w1.st.vals = w.st.vals ∧
+    (∀ t, (w1.st.tens t).data = (w.st.tens t).data ∧ (w1.st.tens t).ty = (w.st.tens t).ty ∧
+      (w1.st.tens t).sh = (w.st.tens t).sh) := by
+  simp only [serializeE] at h
+  split at h
+  · simp at h
+  · rename_i q ws _
+    simp only [Except.ok.injEq, Prod.mk.injEq] at h
+    obtain ⟨rfl, _⟩ := h
+    exact ⟨rfl, rfl, rfl, fun t => applyWrites_data ws w.st.tens t⟩
+
 /-! ### non-vacuity -/
 
 /-- an IR model with an input `x`, an initializer `w`, node `A(x, w, None) -> y, ""` (trailing
@@ -371,5 +451,19 @@ example : serializableB ⟨{ vals := fun _ => { name := some "a" }, nv := 2 }, .
 example : ∃ w1 p, serialize exampleWorld = .ok (w1, p) := by
   obtain ⟨w1, p, _, _, h, _⟩ := C03_roundtrip exampleWorld (serializableB_sound _ (by decide +kernel))
   exact ⟨w1, p, h⟩
+
+/-- IR-side decorations with dicts in insertion order: the hypothesis of `C03_meta_roundtrip` holds … -/
+def exampleDecoS : ModelDS := deserModelD (exampleDeco 10)
+
+example : wfModelDB exampleDecoS = true ∧ isOkB (serModelD exampleDecoS) = true := by decide +kernel
+
+/-- … and excludes a dict with a repeated key -/
+example : wfModelDB { exampleDecoS with mprops := [("a", "1"), ("a", "2")] } = false := by decide +kernel
+
+/-- the hypothesis of `C03_pure_ext` is satisfiable (below IR version 11 the device configurations are not
+    written) and serialization does raise: at IR version 11 the sharding spec without a value is refused -/
+example : (match deserializeE exampleExt with
+    | .ok w => isOkB (serializeE (some 10) w) && !isOkB (serializeE (some 11) w)
+    | .error _ => false) = true := by decide +kernel
 
 end IrVerif.Scope
